@@ -68,6 +68,27 @@ fn main() {
     });
 
     if let Some(path) = replay {
+        // libFuzzer artifacts (raw bytes) are replayed through the same driver and oracle
+        let raw = std::fs::read(&path).unwrap_or_default();
+        if def.id == "C12" && raw.first() != Some(&b'{') {
+            let res = std::panic::catch_unwind(|| hootverif::props::c12::replay_artifact(&path));
+            match res {
+                Ok(Ok(info)) => {
+                    println!("replay {}: property C12 holds on this input ({})", path.display(), info);
+                    std::process::exit(0);
+                }
+                Ok(Err(m)) => {
+                    println!("failure: {}", m);
+                    println!("VIOLATION property=C12 replay={}", path.display());
+                    std::process::exit(1);
+                }
+                Err(_) => {
+                    println!("failure: panic while replaying the artifact");
+                    println!("VIOLATION property=C12 replay={}", path.display());
+                    std::process::exit(1);
+                }
+            }
+        }
         match replay_file(def, &verif_dir, &path) {
             Ok(st) => {
                 for (k, (n, d)) in &st.known_hits {
